@@ -281,6 +281,21 @@ func c11Shapes() []genCase {
 		add(twopass+"\n", args, nil, "st 1\nst 2\n")
 		add(`FNR == 1 { print "first of", FILENAME, NR } END { print NR, FNR }`+"\n", args, nil, "st 1\nst 2\n")
 	}
+	// the counters after they were assigned text that came from outside the program (an operand
+	// NR=10, -v, a field, a getline variable): they hold a numeric string then, and must go on counting
+	cnt := `{ print "R", NR, FNR, $1 } END { print "E", NR, FNR }`
+	for _, args := range [][]string{{"in0", "NR=10", "in1"}, {"NR=5", "in0"}, {"in0", "FNR=0", "in1"}, {"in0", "FNR=7", "NR=0", "in0"}, {"in0", "NR=1e1", "in1"}, {"in0", "NR= 3 ", "in1"}, {"in0", "NR=0x10", "in1"}, {"in0", "NR=abc", "in1"}, {"in0", "NR=2.5", "in1"}} {
+		add(cnt+"\n", args, nil, "st 1\nst 2\n")
+		add(`FNR == 2 { getline; print "G", NR, FNR } `+cnt+"\n", args, nil, "st 1\nst 2\n")
+	}
+	for _, vars := range [][]string{{"NR", "10"}, {"FNR", "3"}, {"NR", "1e2", "FNR", "0"}, {"NR", "x"}} {
+		add(cnt+"\n", []string{"in0", "in1"}, vars, "")
+		add(cnt+"\n", nil, vars, "st 1\nst 2\nst 3\n")
+	}
+	for _, asg := range []string{"NR = $2", "FNR = $2", "NR = $2; FNR = $2", "getline v < \"in1\"; NR = v", "split(\"40 50\", P); NR = P[1]; FNR = P[2]", "NR = $2 \"\"", "NR = $2 + 0", "$3 = 9; NR = $3"} {
+		add(`FNR == 2 { `+asg+` } `+cnt+"\n", []string{"in0", "in0"}, nil, "")
+		add(`NR == 1 { `+asg+` } `+cnt+"\n", nil, nil, "a 20\nb 30\nc 40\n")
+	}
 	// a range pattern, a next, an exit and a getline far down a long rule list
 	for _, nrules := range []int{0, 10, 62, 63, 64, 65, 100, 130} {
 		var sb strings.Builder
